@@ -2,6 +2,8 @@ package main
 
 import (
 	"flag"
+
+	"golang.org/x/tools/go/ssa"
 	"fmt"
 	"os"
 	"sort"
@@ -174,6 +176,13 @@ func cmdCheck(mode string, args []string) int {
 			fmt.Println("ERROR:", e)
 		}
 		WriteLedger(*verif, *prop, obls)
+		var fns []*ssa.Function
+		for _, u := range us {
+			if u.fn != nil {
+				fns = append(fns, u.fn)
+			}
+		}
+		w.recordLocals(fns)
 		return 0
 	}
 	rp := &Replayer{W: w, Verif: *verif}
